@@ -33,6 +33,14 @@ THEOREMS = [
     "Nix.C19.C19_force_roundtrip",
     "Nix.C19.C19_force_refused_unchanged",
     "Nix.C19.C19_force_only_own_stamp",
+    "Nix.C19.C19_creators_stamp_both",
+    "Nix.C19.C19_factories_stamp_both",
+    "Nix.C19.C19_factories_cover_kinds",
+    "Nix.C19.C19_create_refines_source",
+    "Nix.C19.C19_switch_written_only_by_assignment",
+    "Nix.C19.C19_switch_follows_assignments",
+    "Nix.C19.C19_calls_keep_switch",
+    "Nix.C19.C19_listed_stamped_after_any_history",
 ]
 ASSUMPTIONS = [
     "CPython's datetime (utcfromtimestamp, strftime with glibc's unpadded %Y, strptime, datetime subtraction) is "
@@ -1941,8 +1949,9 @@ def replay_failure(ctx, fj):
 
 
 LEANCHECK_MODULES = ["NixModel.Props.C19", "NixModel.Lemmas.C19Stamps", "NixModel.Lemmas.C19Time",
-                     "NixModel.Lemmas.C19Days", "NixModel.Pure.Stamps", "NixModel.Pure.Time", "NixModel.Py.Civil",
-                     "NixModel.Generated.Setters"]
+                     "NixModel.Lemmas.C19Days", "NixModel.Pure.Stamps", "NixModel.Pure.StampsCreate",
+                     "NixModel.Pure.Time", "NixModel.Py.Civil", "NixModel.Generated.Setters",
+                     "NixModel.Generated.Creation"]
 
 READY = True
 MANIFEST = {
